@@ -7,46 +7,14 @@ NOTES = ("Technique family: contract-based deductive verification of the real co
 WIP = "no contract-sized unit built for this property yet (work in progress; see DESIGN.md §4)"
 PROPS = {
  "C05": {"claimed": True, "engine": "A+B", "level": "proof",
-         "technique": "CBMC dfcc function contracts on real src/Var.c",
-         "text": "Function contracts (requires/ensures/assigns/frees) enforced per function by goto-instrument --dfcc + CBMC for all inputs: "
-                 "variant copy/clear discipline of Var.c. Says nothing about printf rendering, file bytes or the engine's punch order.",
-         "note": "Trusted: CBMC 6.11 and its C library models; Var.c read as C. String-content units (VarAllocString, VarCopy with a string source) are "
-                 "bounded by VERIF_MAXN and listed under bounded_units, not counted in obligations/discharged."},
- "C01": {"claimed": True, "engine": "B", "level": "proof",
-         "technique": "own VC generator over clang AST + exact polynomial normalisation (sympy) / z3",
-         "text": "Function contract on Phreeqc::k_calc: for all T>0, P and log K coefficient arrays the result is the database expression "
-                 "(van 't Hoff + analytical expression + molar-volume pressure term); the difference code - specification normalises to 0 exactly. "
-                 "The fixed point of the Newton solver (mass action / mole balance at convergence for every input and database) is NOT decided.",
-         "note": "Doubles read as mathematical reals; log10 uninterpreted; astvc (vf/astvc) and clang's AST are trusted. Partial claim: only the named function-level facts."},
- "C08": {"claimed": True, "engine": "A+B", "level": "proof",
-         "technique": "CBMC contracts on functions cut mechanically from utilities.cpp (loop contracts for read-only walks, bounded unwinding otherwise) + AST-typed call-site capacity obligations",
-         "text": "C-string helpers of utilities.cpp (copy_token, str_tolower/upper, squeeze_white, isamong, strcmp_nocase, strcmp_nocase_arg1) cut from /repo on every run: memory safety and functional result "
-                 "for all byte strings (isamong/strcmp_nocase*: unbounded, loop contracts; the writing loops: bounded by unwinding, listed apart). copy_token(char*) bounds itself to MAX_LENGTH, and every one of its 126 call "
-                 "sites with a fixed-size destination provides >= MAX_LENGTH bytes; every strcpy_safe/strcat_safe site passes max <= capacity; the heap-buffer copies in cleanup_after_parser/get_line fit on every path; "
-                 "strcpy_safe/strcat_safe stay within max on the normal path; the tail of set_and_run_wrapper reports non-convergence (error) and MASS_BALANCE faithfully. "
-                 "Absence of crashes in the 125 k-line engine as a whole, leaks, file faults and everything that reaches the helpers as std::string is NOT decided.",
-         "note": "Known finding (printed as KNOWN-FINDING): strcpy_safe/strcat_safe terminate the process on an oversize source. Bounded units are not counted as proved. "
-                 "Counterexamples of Engine A units are replayed natively under ASan/UBSan. C locale models of ctype; call sites located by text scan then typed by clang."},
- "C12": {"claimed": True, "engine": "B", "level": "proof",
-         "technique": "coefficients read from clang's AST as exact rationals; Butcher order conditions in Q; path-wise VCs with z3",
-         "text": "Lemmas over the Runge-Kutta tableau literally coded in Phreeqc::rk_kinetics: every stage combination is linear in the stored stage rates with the strides "
-                 "stage*n_reactions+j, row sums equal the nodes used in the rate_sim_time updates, the weights satisfy all 17 order conditions to order 5 and the embedded weights c-dc all 8 to order 4, "
-                 "sum dc = 0, low-order shortcut weights sum to one; every test that clears the equal-rate flag means |x-y| > tol; cxxKinetics::Current_step returns the step time per manual with all "
-                 "vector indices in range and incremental = cumulative bookkeeping. Step-size control, limit_rates, cvode and agreement with closed-form solutions are NOT decided.",
-         "note": "Decimal literals read as the rationals they spell; value of k at a site = textually last assignment; reaction_step >= 1 and count > 0 assumed; std::vector model."},
- "C13": {"claimed": True, "engine": "B", "level": "proof",
-         "technique": "own VC generator over clang AST: symbolic execution with ghost call trace, z3",
-         "text": "Generated forwarding contract for every extern \"C\" function of IPhreeqcLib.cpp (same-named method, receiver = instance of id, arguments in order, "
-                 "documented result translation, nothing called on a bad id) and every *F function of IPhreeqc_interface_F.cpp (same-named C function, *id, documented -1 shifts, "
-                 "padfstring on the result). All paths, all argument values.",
-         "note": "GetInstance assumed pure (own unit). Behaviour of the forwarded-to methods is outside these units. astvc and clang's AST trusted."},
- "C16": {"claimed": True, "engine": "B", "level": "proof",
-         "technique": "own VC generator over clang AST: iteration contract + symbolic derivative lemma (sympy), z3",
-         "text": "Iteration contract on the species loop of Phreeqc::gammas: for gflag 0,1,2,3,5,7 log gamma equals the model's defining equation "
-                 "(neutral, Davies, extended/WATEQ Debye-Hueckel, unit, LLNL B-dot) and dg = moles*ln10*d(lg)/d(mu) with the derivative taken symbolically from the specification; "
-                 "only lg/dg of that species are written. Statement contract: a_llnl/b_llnl/bdot_llnl are the linear interpolation between table entries. "
-                 "Pitzer and SIT sums, Gibbs-Duhem consistency, the DH A/B parameters and exchange/surface cases are NOT decided.",
-         "note": "Doubles as reals; sqrt/log10 uninterpreted (sqrt(x)^2=x); std::vector model; error_msg(.., STOP) assumed not to return; search loop over the LLNL table over-approximated (havoc)."},
+         "technique": "CBMC dfcc contracts on real src/Var.c and on padfstring cut from the Fortran glue; own VC generator (clang AST, STL model, z3) for the table class",
+         "text": "Variant copy/clear discipline of Var.c (function contracts enforced by goto-instrument --dfcc for all inputs); CSelectedOutput against its representation invariant: "
+                 "GetRowCount = (cols ? rows+1 : 0), GetColCount, Get(row,col) returns VR_INVALIDROW/VR_INVALIDCOL in an error-typed VAR for every out-of-range index, row 0 = heading, else cell (row-1,col), table unchanged, "
+                 "no vector index out of range; EndRow pads every short column to exactly the new row count (never-punched cells are default = empty); PushBack appends a padded column for a new key and maps it to the new index, "
+                 "or fills the open row's cell, keeping the invariant; per-user-number switch look-ups; both fpunchf_user overloads send value i to heading i or to the same synthesized column; padfstring blank-pads exactly len bytes. "
+                 "printf rendering, file bytes, punch order of the engine and tidy_punch are NOT decided.",
+         "note": "Trusted: CBMC 6.11 and its C library models; Var.c read as C; astvc + clang AST + z3; STL model of vector/map (element identity abstract). String-content units (VarAllocString, VarCopy with string source, padfstring) are bounded and "
+                 "listed apart. Known finding printed on every run: get_sel_out_string_on ignores its argument (pinned by an existing test)."},
  "C07": {"claimed": True, "engine": "B", "level": "other",
          "technique": "generated per-member reset obligations from symbolic execution of the unload sequence over clang's AST",
          "text": "One generated obligation per data member of class Phreeqc (593) and class IPhreeqc (49): after the unload sequence "
